@@ -162,15 +162,16 @@ Print Assumptions c15_update_stops.
 
 (* readLoop / monitor: with the session closed AND the transport closed, readLoop returns
    (first read error); the first packet after Close ends it too; for a socket the library owns,
-   Close itself closes the transport; the monitor returns once the transport is closed. *)
+   Close itself closes the transport (UDPSession.Close of a client; Listener.Close once it has
+   returned); the monitor returns once the transport is closed. *)
 Theorem c15_readloop_exits :
   forall cap,
   (forall s, die s = true -> sock s = true -> (rl s = RLRead \/ rl s = RLGot \/ rl s = RLIn) ->
      exists t, star cap is_rl s t /\ rl t = RLDone) /\
   (forall s, die s = true -> rl s = RLGot -> exists t, Exit.step cap s RL_closed t /\ rl t = RLDone) /\
   (forall s, reach cap (init_client true) s -> die s = true -> sock s = true) /\
-  (forall s, reach cap (init_served true) s -> ldie s = true -> sock s = true) /\
-  (forall o s, reach cap (init_served o) s -> sock s = true -> (mon s = MRead \/ mon s = MGot) ->
+  (forall s, reach cap (init_served true) s -> lc s = LCDone -> sock s = true) /\
+  (forall o s, reach cap (init_served o) s -> sock s = true ->
      exists t, star cap is_mon s t /\ mon t = MDone).
 Proof. exact thm_readloop_exits. Qed.
 Print Assumptions c15_readloop_exits.
@@ -183,33 +184,58 @@ Theorem c15_readloop_needs_transport :
 Proof. exact readloop_blocked_without_transport. Qed.
 Print Assumptions c15_readloop_needs_transport.
 
-(* The full statement "closing sessions, listener and transport terminates every goroutine and
-   callback the library started" (all_exit_full: from every state of a served session in which
-   listener and transport are closed and every session the application holds is closed, library
-   steps alone reach "postProcess returned, no update pending or running, monitor returned") is
-   REFUTED by the faithful model for sessions still in the listener's accept backlog (DESIGN
-   F14): connect, do not accept, close the listener (it owns and closes the socket; the monitor
-   returns).  The application holds no handle on the session; from then on, whatever happens
-   short of a further successful Accept, the session's die stays open, its postProcess stays at
-   its select and exactly one update callback stays pending or running, for ever.  With a socket
-   the listener does not own, the monitor moreover creates such sessions AFTER Listener.Close. *)
-Definition c15_all_exit_full : Prop := all_exit_full.
+(* Closing sessions, their listener and the transport ends everything the library started.
+   Served side: from EVERY reachable state in which Listener.Close has returned, the transport is
+   closed where the listener does not own it, and every session the application holds is closed,
+   steps of the library alone (no further call of the application, no packet) lead to: monitor
+   returned, postProcess returned (or no session was ever created), no update callback pending
+   or running.  This covers sessions that were accepted, sessions still in the accept backlog
+   when Close ran (closeBacklog closes them), and sessions the monitor was in the middle of
+   creating while Close ran (the die test before newUDPSession, and the second test after
+   `l.chAccepts <- s` that makes the monitor run closeBacklog itself).
+   History: before commit "fix: Listener.Close closes the sessions still waiting in the accept
+   backlog" the transition system had no closeBacklog and no die test in the dispatch; this
+   statement was then refuted by the state "connect, do not accept, close listener and socket"
+   (die open, postProcess at its select, one update callback pending or running for ever; with
+   a socket not owned, the monitor created sessions after Listener.Close) - DESIGN F14.  The
+   harness monitor `close-leak:unaccepted-backlog-sessions` keeps watching for it. *)
+Theorem c15_all_exit :
+  forall cap o s, reach cap (init_served o) s ->
+    lc s = LCDone -> (own s = false -> sock s = true) -> (wh s = WHeld -> die s = true) ->
+    exists t, star cap is_lib s t /\
+              (pp t = PPDone \/ pp t = PPNone) /\ pend t = 0 /\ Exit.run t = false /\ mon t = MDone.
+Proof. exact thm_all_exit. Qed.
+Print Assumptions c15_all_exit.
 
-Theorem c15_backlog_leak_refuted :
-  (exists s, (forall cap, reach cap (init_served true) s) /\
-     ldie s = true /\ sock s = true /\ mon s = MDone /\ wh s = WBacklog /\
-     forall cap t, star cap not_accept s t ->
-       die t = false /\ pp t = PPSel /\ wh t = WBacklog /\ pend t + b2n (Exit.run t) = 1) /\
-  (exists s, (forall cap, reach cap (init_served false) s) /\ ldie s = true /\
-     forall cap, exists t, Exit.step cap s M_dispatch_new t /\ wh t = WBacklog /\ pp t = PPSel /\ pend t = 1) /\
-  ~ c15_all_exit_full.
-Proof. exact thm_backlog_leak_refuted. Qed.
-Print Assumptions c15_backlog_leak_refuted.
+(* Client side: a closed dialled session, transport closed where it does not own it. *)
+Theorem c15_client_all_exit :
+  forall cap o s, reach cap (init_client o) s ->
+    die s = true -> (own s = false -> sock s = true) ->
+    exists t, star cap is_lib s t /\ pp t = PPDone /\ pend t = 0 /\ Exit.run t = false /\ rl t = RLDone.
+Proof. exact thm_client_all_exit. Qed.
+Print Assumptions c15_client_all_exit.
 
-(* Example: a dialled client with traffic queued is closed; postProcess drains and returns, the
-   pending update fires as a no-op, readLoop returns on the read error. *)
+(* Examples: the hypotheses are satisfiable by non-trivial reachable states. *)
+(* a dialled client with traffic queued is closed: postProcess drains and returns, the pending
+   update fires as a no-op, readLoop returns on the read error *)
 Example c15_exit_example :
-  let s := mkS true true false 2 PPSel 1 false RLRead MNone WHeld true in
+  let s := mkS true true false 2 PPSel 1 false RLRead MNone WHeld true LCNone in
   reach 8 (init_client true) s /\
-  star 8 (fun l => negb (is_env l)) s (mkS true true false 0 PPDone 0 false RLDone MNone WHeld true).
+  star 8 is_lib s (mkS true true false 0 PPDone 0 false RLDone MNone WHeld true LCNone).
 Proof. exact ex_exit. Qed.
+
+(* the history that used to leak: a peer connects, nobody accepts, the listener (owning the
+   socket) is closed: the session is closed by closeBacklog and everything ends *)
+Example c15_backlog_example :
+  let s := mkS true true true 0 PPSel 1 false RLNone MRead WDropped true LCDone in
+  reach 8 (init_served true) s /\
+  star 8 is_lib s (mkS true true true 0 PPDone 0 false RLNone MDone WDropped true LCDone).
+Proof. exact ex_backlog_closed. Qed.
+
+(* the race the second die test is there for: the monitor passed the first test, Close ran to
+   completion, then the session is created and queued - the monitor closes it itself *)
+Example c15_race_example :
+  let s := mkS false false true 0 PPNone 0 false RLNone MChecked WNone false LCDone in
+  reach 8 (init_served false) s /\
+  exists t, star 8 is_mon s t /\ wh t = WDropped /\ die t = true /\ mon t = MRead.
+Proof. exact ex_race_closed. Qed.
